@@ -262,6 +262,11 @@ def run(chk, replay=None):
         # with a flagged-out cell, a quadtree grid made of two of the four zoom-1 tiles
         region_kind = ['cart2', 'cart-edge', 'cart-flag', 'quadtree'][t % 4]
         region, inside_fn = region_of(region_kind)
+        if region_kind == 'quadtree':
+            # events exactly on the edges of the two tiles: their west / south edges belong to them, their east / north edges
+            # (the prime meridian south of the equator, the equator west of it) to the tiles that are not part of the region
+            pool['longitude'] = sorted(set(pool['longitude']) | {0.0, -45.0, 45.0})
+            pool['latitude'] = sorted(set(pool['latitude']) | {0.0, -20.0, 30.0})
         rows, events = [], []
         for i in range(n):
             f = {a: rng.choice(pool[a]) for a in ATTRS}
